@@ -55,7 +55,7 @@ def run_family(f, num, seed, keep=None):
 def driver_config(f):
     c = f["consts"]
     return {"backend": f["backend"], "ignoreCC": c["IgnoreCC"], "forceDefault": c["ForceDefault"], "defaultAge": c["DefaultAge"],
-            "bodyLen": f["bodylen"], "retry416": False, "watchdogMs": 5000}
+            "bodyLen": f["bodylen"], "retry416": False, "watchdogMs": 1500}
 
 
 def replay_and_validate(f, hists, inp=None):
